@@ -967,10 +967,14 @@ fn parse_expr(
                         let function_arguments: Pair<Rule> = op.into_inner().next().unwrap();
                         let function_arguments: Node = Node::new_with_user_data(function_arguments, Rc::clone(&user_data));
 
-                        let (_, parameters) = user_data
-                            .get_current_executing_function()
-                            .details(l_span.as_ref().unwrap().as_span(), &user_data.get_source_file_name(), "`self` is not callable here".to_owned())
-                            .to_err_vec()?;
+                        // the scope borrow must end before the arguments are parsed: a function literal among them opens a scope
+                        let parameters = {
+                            let (_, parameters) = user_data
+                                .get_current_executing_function()
+                                .details(l_span.as_ref().unwrap().as_span(), &user_data.get_source_file_name(), "`self` is not callable here".to_owned())
+                                .to_err_vec()?;
+                            Rc::clone(&parameters)
+                        };
 
                         let arguments: FunctionArguments = Parser::function_arguments(function_arguments, &parameters, None)?;
 
